@@ -216,7 +216,7 @@ func (c *shardedMapOf[V]) deleteExpired(before time.Time) {
 
 		b.Lock()
 		for h, v := range b.data {
-			if v.E < beforeTS {
+			if v.E != 0 && v.E < beforeTS {
 				delete(b.data, h)
 			}
 		}
